@@ -37,14 +37,16 @@ PARTS = {
     "INTERVAL": (1, 2, 13),
     # incl. the ends of every RFC range (BYSECOND 0-60, BYMINUTE 0-59, BYHOUR 0-23, +-31, +-366, +-53)
     "BYSECOND": (0, (0, 30), 59, 60),
-    "BYMINUTE": (0, (15, 45), 59),
+    "BYMINUTE": (0, (15, 45), 59, tuple(range(0, 60))),
     "BYHOUR": (0, (9, 17), 23),
     # the last entries mix the library's own typed values (what decoding yields) with plain ones in one list
     "BYDAY": ("MO", ("TU", "TH"), "+1MO", "-1SU", ("1FR", "-2SA"), (vWeekday("1MO"), "-1fr"), ("we", vWeekday("MO"))),
-    "BYMONTHDAY": (1, -1, (1, 15, -1), (vInt(1), -1), (31, -31)),
+    "BYMONTHDAY": (1, -1, (1, 15, -1), (vInt(1), -1), (31, -31), tuple(range(1, 32)) + tuple(range(-31, 0))),
     "BYYEARDAY": (1, -1, (100, -100), (366, -366)),
     "BYWEEKNO": (1, -1, (20, 53), (-53, 53)),
-    "BYMONTH": (1, (6, 12), "5L", (5, "5L"), ("7L", 7), "12L", ("10L", 3, "11L", 12), (vMonth(3), 9, "4L")),
+    "BYMONTH": (1, (6, 12), "5L", (5, "5L"), ("7L", 7), "12L", ("10L", 3, "11L", 12), (vMonth(3), 9, "4L"),
+                # long lists (a Chinese year: 12 months and a leap month), typed and plain
+                (1, 2, 3, 4, vMonth("4L"), 5, 6, 7, 8, 9, 10, 11, 12), (1, 2, 3, 4, "4L", 5, 6, 7, 8, 9, 10, 11, 12)),
     "BYSETPOS": (1, -1, (1, -1), (366, -366)),
     "WKST": ("MO", "SU"),
     "RSCALE": ("GREGORIAN", "HEBREW"),
